@@ -2,7 +2,7 @@
 import vlib
 from props import fam_sym
 
-MODEL_VO = ['Fft/Place.vo']
+MODEL_VO = ['Fft/Place.vo', 'Fft/AsuLookup.vo']
 
 
 def gen_tables():
